@@ -17,6 +17,7 @@ import (
 	"github.com/rulego/streamsql"
 	"github.com/rulego/streamsql/functions"
 	"github.com/rulego/streamsql/logger"
+	"github.com/rulego/streamsql/schema"
 	"github.com/rulego/streamsql/types"
 	"verif.local/simrt"
 )
@@ -74,7 +75,15 @@ type InstSpec struct {
 	MaxPartitions int         `json:"max_partitions,omitempty"`
 	ReadChan      bool        `json:"read_chan,omitempty"` // a harness goroutine drains ToChannel()
 	ReadChanSlow  int64       `json:"read_chan_slow,omitempty"`
-	Funcs         []string    `json:"funcs,omitempty"` // custom scalar functions registered before Execute (F14)
+	Funcs         []string    `json:"funcs,omitempty"`  // custom scalar functions registered before Execute (F14)
+	Schema        []SchemaFld `json:"schema,omitempty"` // WithSchema: input validation with defaults
+}
+
+type SchemaFld struct {
+	Name     string `json:"name"`
+	Type     string `json:"type"` // float string any
+	Required bool   `json:"required,omitempty"`
+	Default  any    `json:"default,omitempty"` // float64 or string (as decoded from JSON)
 }
 
 type Case struct {
@@ -201,20 +210,21 @@ type Inst struct {
 }
 
 type Env struct {
-	T      *testing.T
-	C      *Case
-	Sim    *simrt.Sim
-	R      *Result
-	Insts  []*Inst
-	Ops    []*OpRec
-	Tasks  []*simrt.Task
-	log    []string
-	logOn  bool
-	hash   interface{ Write([]byte) (int, error) }
-	LogErr []string // engine log lines at Error/Warn level
-	hooks  PropHooks
-	Ended  bool
-	logMu  sync.Mutex
+	T       *testing.T
+	C       *Case
+	Sim     *simrt.Sim
+	R       *Result
+	Insts   []*Inst
+	Ops     []*OpRec
+	Tasks   []*simrt.Task
+	log     []string
+	logOn   bool
+	hash    interface{ Write([]byte) (int, error) }
+	LogErr  []string      // engine log lines at Error/Warn level
+	SimSkip time.Duration // fake time skipped before the workload (not counted as simulated time)
+	hooks   PropHooks
+	Ended   bool
+	logMu   sync.Mutex
 	// IngestT: fake times at which the watermark recorded an event arrival (observed through the
 	// scheduler's grant of the lock site "window/watermark.go:*:lock:UpdateEventTime"; the next
 	// thing that goroutine does is read the clock into lastEventTime); index = arrival number
@@ -362,6 +372,20 @@ func (e *Env) Setup() error {
 			opts := []streamsql.Option{streamsql.WithLogger(capLogger{e})}
 			if spec.Perf != nil {
 				opts = append(opts, streamsql.WithCustomPerformance(spec.Perf.toConfig()))
+			}
+			if len(spec.Schema) > 0 {
+				sc := schema.Schema{Name: "verif"}
+				for _, f := range spec.Schema {
+					t := schema.TypeAny
+					switch f.Type {
+					case "float":
+						t = schema.TypeFloat
+					case "string":
+						t = schema.TypeString
+					}
+					sc.Fields = append(sc.Fields, schema.FieldDef{Name: f.Name, Type: t, Required: f.Required, Default: f.Default})
+				}
+				opts = append(opts, streamsql.WithSchema(sc))
 			}
 			if spec.MaxPartitions > 0 {
 				opts = append(opts, streamsql.WithAnalyticMaxPartitions(spec.MaxPartitions))
@@ -749,7 +773,7 @@ func (e *Env) finish() {
 	s := e.Sim
 	r := e.R
 	r.Steps, r.Advances, r.Preempt = s.Steps, s.Advances, s.Preempt
-	r.SimNS = int64(s.Now())
+	r.SimNS = int64(s.Now() - e.SimSkip)
 	r.Goroutines = s.NumGoroutines()
 	r.Ties, r.Diverged = s.Ties, s.Diverged
 	th := sha256.New()
